@@ -102,6 +102,9 @@ class ConnGen:
         return (self.side == 'client') != is_event
 
     def _born(self, oid, iface):
+        if not hasattr(self, 'past'):
+            self.past = {}
+        self.past.setdefault(oid, []).append(iface)
         self.live[oid] = iface
         self.dead.pop(oid, None)
         self.gens[oid] = self.gens.get(oid, 0) + 1
@@ -455,6 +458,58 @@ class ConnGen:
                 return m
         return dict(sent=self.sent(d.chance(0.5)), iface=iface, id=oid, name=d.choice(['future_request', 'set_v99_thing', 'new', 'frob']), args=extra)
 
+    def step_long_line(self, d):
+        """a message whose printed line is longer than 4096 characters (a long title, namespace or text; the wire limit is on the
+        message, not on its print-out), half of the time one that also creates an object - preferably on an id used before"""
+        P = protocols()
+        pool = sorted(i for i in self.live if i > 2)
+        if not pool:
+            return None
+        oid = d.choice(pool)
+        iface = self.live[oid]
+        text = d.choice(['L' * 4200, 'ab ' * 1400, 'x, ' * 2100, 'title (draft) ' * 400])
+        is_event = d.chance(0.3)
+        args = [['str', text]]
+        if d.chance(0.5):
+            i = self.alloc_server(d) if is_event else self.alloc_client(d)
+            if i != oid:
+                t = d.choice(['my_child', 'wl_buffer', 'wl_callback'])
+                args.insert(0, ['new', t, i])
+                self._born(i, t)
+        if d.chance(0.5):
+            args.append(['uint', d.int(0, 9)])
+        name = d.choice(['future_request', 'set_v99_thing', 'frob']) if iface in P else d.choice(FREE_NAMES)
+        return dict(sent=self.sent(is_event), iface=iface, id=oid, name=name, args=args)
+
+    def step_foreign(self, d):
+        """a line naming an id in use (or used before) under ANOTHER interface than its holder's - what the lines of a second,
+        untagged connection in the same process look like. It creates nothing and is not a mention of the holder; the message
+        it denotes is still the one on the line"""
+        pool = sorted(i for i in list(self.live) + list(self.dead) if i > 2)
+        if not pool:
+            return None
+        oid = d.choice(pool)
+        holder = self.iface_of(oid)
+        others = [t for t in ['wl_surface', 'wl_buffer', 'wl_callback', 'wl_region', 'xdg_toplevel', 'my_child', 'ACME_panel'] if t != holder]
+        earlier = sorted({t for t in getattr(self, 'past', {}).get(oid, []) if t and t != holder})
+        if earlier and d.chance(0.7):
+            others = earlier          # the interface an earlier holder of the id had (and was addressed by)
+        else:
+            # ... or an id that changed hands at some point, under one of its former interfaces
+            cands = sorted(i for i in pool if {t for t in getattr(self, 'past', {}).get(i, []) if t} - {self.iface_of(i)})
+            if cands and d.chance(0.7):
+                oid = d.choice(cands)
+                holder = self.iface_of(oid)
+                others = sorted({t for t in self.past[oid] if t and t != holder})
+        args = []
+        for _ in range(d.int(0, 3)):
+            k = d.int(0, 3)
+            if k == 0: args.append(['int', d.int(-5, 5)])
+            elif k == 1: args.append(['uint', d.choice(U32)])
+            elif k == 2: args.append(['str', d.choice(STRS)])
+            else: args.append(['fixed', d.int(-1000, 1000)])
+        return dict(sent=d.chance(0.5), iface=d.choice(others), id=oid, name=d.choice(['frob', 'damage', 'commit', 'done', 'future_request']), args=args, foreign=True)
+
     def step_midsession(self, d):
         """the log started mid-session: a message on an object whose creation the tool never saw (its id is not in the table),
         possibly creating objects (which must exist from then on) or mentioning another such object"""
@@ -623,6 +678,8 @@ class ConnGen:
         elif kind == 'nulls': m = self.step_nulls(d)
         elif kind == 'repeat': m = self.step_repeat(d)
         elif kind == 'midsession': m = self.step_midsession(d)
+        elif kind == 'long_line': m = self.step_long_line(d)
+        elif kind == 'foreign': m = self.step_foreign(d)
         elif kind == 'appid': m = self.step_appid(d)
         elif kind == 'arrays': m = self.step_arrays(d)
         elif kind == 'sync': m = self.step_sync(d)
